@@ -2,10 +2,12 @@ import CollectionsC.Properties.C09Stack
 import CollectionsC.Proofs.StackMem
 /-! # C06 (stack part) — memory safety and leak freedom of `CC_Stack`
 
-Statements only.  A stack owns three blocks (its header and the two blocks of the inner array).
+Statements only.  A stack owns three blocks of its allocator triple (its header and the two blocks
+of the inner array; `Stack.Coh`: header and array share the triple, as `cc_stack_new_conf` sets up).
 (a) no call sets `Mem.fault` from a state satisfying the invariant, per call and over histories;
-(b) push/pop/peek/size keep `live`; `cc_stack_filter` adds exactly the three blocks of the result or
-nothing; constructor → any history → destroy returns `live` to its initial value, for every refusal
+(b) push/pop/peek/size keep the triple's block counter and never touch the other allocator;
+`cc_stack_filter` adds exactly the three blocks of the result (source's triple) or nothing;
+constructor → any history → destroy returns the counter to its initial value, for every refusal
 schedule; (c) `cc_stack_destroy_cb` and `cc_stack_map` hand every live element to the callback exactly
 once, bottom to top. -/
 namespace CC.Properties.C06Stack
@@ -13,9 +15,11 @@ open CC
 open CC.Spec.Seq (SOp Out)
 
 theorem step_nofault_ledger (s : Stack) (op : SOp) (m : Mem) (hinv : s.Inv) :
-    (s.step op m).2.2.fault = m.fault ∧ (s.step op m).2.2.live = m.live ∧ (s.step op m).2.1.Inv := by
-  obtain ⟨_, _, _, s4, s5, s6, _⟩ := C09Stack.step_refines s op m hinv
-  exact ⟨s6, s5, s4⟩
+    (s.step op m).2.2.fault = m.fault ∧ Arr.own s.v.triple (s.step op m).2.2 = Arr.own s.v.triple m ∧
+    Arr.Foreign s.v.triple m (s.step op m).2.2 ∧ (s.step op m).2.1.Inv := by
+  obtain ⟨_, _, _, s4, _, s6, _⟩ := C09Stack.step_refines s op m hinv
+  obtain ⟨l1, l2, _⟩ := Stack.step_led s op m hinv
+  exact ⟨s6, by simpa using l1, l2, s4⟩
 
 theorem history_nofault (ops : List SOp) (s : Stack) (m : Mem) (hinv : s.Inv)
     (hf : m.fault = false) : (s.run ops m).2.2.fault = false ∧ (s.run ops m).2.1.Inv := by
@@ -23,44 +27,54 @@ theorem history_nofault (ops : List SOp) (s : Stack) (m : Mem) (hinv : s.Inv)
   exact ⟨by rw [h5]; exact hf, h3⟩
 
 theorem history_ledger (ops : List SOp) (s : Stack) (m : Mem) (hinv : s.Inv) :
-    (s.run ops m).2.2.live = m.live := (C09Stack.history_refines ops s m hinv).2.2.2.1
+    Arr.own s.v.triple (s.run ops m).2.2 = Arr.own s.v.triple m ∧ Arr.Foreign s.v.triple m (s.run ops m).2.2 :=
+  ⟨(Stack.run_led ops s m hinv).1, (Stack.run_led ops s m hinv).2.1⟩
 
-/-- **no leak**: construct, run any interleaving under any refusal schedule, destroy -/
-theorem destroy_releases_all (cap : Nat) (grow : Nat → Nat) (exGe : Nat → Bool) (m0 : Mem) (s0 : Stack)
-    (hnew : (Stack.new cap grow exGe m0).2.1 = some s0) (ops : List SOp) :
-    let r := s0.run ops (Stack.new cap grow exGe m0).2.2
-    (r.2.1.destroy r.2.2).live = m0.live ∧ (r.2.1.destroy r.2.2).fault = m0.fault := by
+/-- **no leak**: construct (either triple), run any interleaving under any refusal schedule, destroy -/
+theorem destroy_releases_all (cap : Nat) (grow : Nat → Nat) (exGe : Nat → Bool) (m0 : Mem) (t : Triple) (s0 : Stack)
+    (hnew : (Stack.new cap grow exGe m0 t).2.1 = some s0) (ops : List SOp) :
+    let r := s0.run ops (Stack.new cap grow exGe m0 t).2.2
+    Arr.own t (r.2.1.destroy r.2.2) = Arr.own t m0 ∧ (r.2.1.destroy r.2.2).fault = m0.fault := by
   intro r
-  obtain ⟨_, _, _, h4, h5⟩ := C09Stack.new_history_refines cap grow exGe m0 s0 hnew ops
-  obtain ⟨d1, d2⟩ := Stack.destroy_spec r.2.1 r.2.2 (by show 3 ≤ (s0.run ops _).2.2.live; omega)
-  exact ⟨by rw [d1]; show (s0.run ops _).2.2.live - 3 = _; omega, by rw [d2]; exact h5⟩
+  obtain ⟨_, _, _, h4, h5, h6, h7⟩ := C09Stack.new_history_refines cap grow exGe m0 t s0 hnew ops
+  have h7' : r.2.1.triple = t := h7
+  obtain ⟨d1, d2⟩ := Stack.destroy_spec r.2.1 r.2.2 h6 (by rw [h7']; show 3 ≤ Arr.own t (s0.run ops _).2.2; omega)
+  rw [h7'] at d1
+  exact ⟨by rw [d1]; show Arr.own t (s0.run ops _).2.2 - 3 = _; omega, by rw [d2]; exact h5⟩
 
 /-- a failed construction (refusal of any of the three requests, or an invalid capacity) leaves
 nothing behind -/
-theorem new_failed_leaves_nothing (cap : Nat) (grow : Nat → Nat) (exGe : Nat → Bool) (m : Mem)
-    (h : (Stack.new cap grow exGe m).2.1 = none) :
-    (Stack.new cap grow exGe m).2.2.live = m.live ∧ (Stack.new cap grow exGe m).2.2.fault = m.fault := by
-  rcases Stack.new_spec cap grow exGe m with ⟨_, _, s3, s4⟩ | ⟨_, r, h1, _⟩
+theorem new_failed_leaves_nothing (cap : Nat) (grow : Nat → Nat) (exGe : Nat → Bool) (m : Mem) (t : Triple)
+    (h : (Stack.new cap grow exGe m t).2.1 = none) :
+    Arr.own t (Stack.new cap grow exGe m t).2.2 = Arr.own t m ∧ (Stack.new cap grow exGe m t).2.2.fault = m.fault := by
+  rcases Stack.new_spec cap grow exGe m t with ⟨_, _, s3, s4⟩ | ⟨_, r, h1, _⟩
   · exact ⟨s3, s4⟩
   · rw [h1] at h; simp at h
 
-/-- `cc_stack_filter`: three new blocks with the result, none without; never a fault -/
+/-- `cc_stack_filter`: three new blocks of the source's triple with the result, none without; the
+other allocator untouched; never a fault -/
 theorem filter_ledger (p : Nat → Bool) (s : Stack) (dgrow : Nat → Nat) (dexGe : Nat → Bool) (m : Mem) (hinv : s.Inv) :
-    (s.filter p dgrow dexGe m).2.2.2.live = m.live + (if (s.filter p dgrow dexGe m).2.1.isSome then 3 else 0) ∧
+    Arr.own s.triple (s.filter p dgrow dexGe m).2.2.2 =
+      Arr.own s.triple m + (if (s.filter p dgrow dexGe m).1 = .ok then 3 else 0) ∧
+    Arr.Foreign s.triple m (s.filter p dgrow dexGe m).2.2.2 ∧
     (s.filter p dgrow dexGe m).2.2.2.fault = m.fault := by
-  rcases Stack.filter_spec p s dgrow dexGe m hinv with ⟨_, _, s2, s3⟩ | ⟨_, _, s2, s3, s4⟩ | ⟨_, _, r, h1, _, _, _, _, s3, s4⟩
-  · rw [s2, s3]; simp
-  · rw [s2]; simp [s3, s4]
-  · rw [h1]; simp [s3, s4]
+  refine ⟨(Stack.filter_led p s dgrow dexGe m).1, (Stack.filter_led p s dgrow dexGe m).2.1, ?_⟩
+  rcases Stack.filter_spec p s dgrow dexGe m hinv with ⟨_, _, _, s3⟩ | ⟨_, _, _, _, s4⟩ | ⟨_, _, r, _, _, _, _, _, _, s4⟩
+  · rw [s3]
+  · exact s4
+  · exact s4
 
-theorem destroy_ledger (s : Stack) (m : Mem) (hlive : 3 ≤ m.live) :
-    (s.destroy m).live = m.live - 3 ∧ (s.destroy m).fault = m.fault := Stack.destroy_spec s m
+theorem destroy_ledger (s : Stack) (m : Mem) (hc : s.Coh) (hlive : 3 ≤ Arr.own s.triple m) :
+    Arr.own s.triple (s.destroy m) = Arr.own s.triple m - 3 ∧ (s.destroy m).fault = m.fault ∧
+    Arr.Foreign s.triple m (s.destroy m) :=
+  ⟨(Stack.destroy_spec s m hc hlive).1, (Stack.destroy_spec s m hc hlive).2, Stack.destroy_foreign s m hc⟩
 
 /-- (c) `cc_stack_destroy_cb`: every live element exactly once, bottom to top, then all three
-blocks released (the header through the configured allocator — Q2) -/
-theorem destroy_cb_visits_each_once (s : Stack) (m : Mem) (hinv : s.Inv) (hlive : 3 ≤ m.live) :
-    (s.destroyCb m).1 = s.abs ∧ (s.destroyCb m).2.live = m.live - 3 ∧ (s.destroyCb m).2.fault = m.fault :=
-  Stack.destroyCb_spec s m hinv
+blocks released (the header through the stack's own triple — Q2) -/
+theorem destroy_cb_visits_each_once (s : Stack) (m : Mem) (hinv : s.Inv) (hc : s.Coh) (hlive : 3 ≤ Arr.own s.triple m) :
+    (s.destroyCb m).1 = s.abs ∧ Arr.own s.triple (s.destroyCb m).2 = Arr.own s.triple m - 3 ∧
+    (s.destroyCb m).2.fault = m.fault :=
+  Stack.destroyCb_spec s m hinv hc hlive
 
 /-- (c) `cc_stack_map`, and the predicate calls of `cc_stack_filter` -/
 theorem map_visits_each_once (s : Stack) (m : Mem) (hinv : s.Inv) : (s.map m).1 = s.abs ∧ (s.map m).2 = m :=
@@ -73,5 +87,23 @@ theorem iter_nofault (s t : Stack) (it : ArrIter) (c : Spec.Seq.Cursor) (z : Spe
     (Stack.zipNext s t it m).2.2.2 = m ∧ (Stack.zipReplace s t it x y m).2.2.2.2 = m :=
   ⟨(C09Stack.iter_next_sim s it c m hs h1).2.2.2, (C09Stack.iter_replace_sim s it c x m hs h1).2.2.2,
    (C09Stack.zip_next_sim s t it z m hs ht h2).2.2.2, (C09Stack.zip_replace_sim s t it z x y m hs ht h2).2.2.2⟩
+
+/-! Non-vacuity: a stack on the configured triple, eleven pushes (three growth steps), a filter and
+the destruction of both stacks: the configured counter returns to zero, the C library is never used. -/
+example :
+    ((Stack.new 2 (fun c => 2 * c) (fun _ => false) {} .conf).2.1.map fun s =>
+      let h := s.run ((List.range 11).map fun i => SOp.push (2 * i)) (Stack.new 2 (fun c => 2 * c) (fun _ => false) {} .conf).2.2
+      let f := h.2.1.filter (fun v => v % 4 == 0) (fun c => 2 * c) (fun _ => false) h.2.2
+      (h.2.1.abs.length, h.2.2.live, f.1 == Stat.ok, f.2.2.2.live, f.2.2.2.liveLibc, f.2.2.2.fault)) =
+    some (11, 3, true, 6, 0, false) := by
+  decide
+
+example :
+    ((Stack.new 2 (fun c => 2 * c) (fun _ => false) {} .conf).2.1.bind fun s =>
+      let h := s.run ((List.range 11).map fun i => SOp.push (2 * i)) (Stack.new 2 (fun c => 2 * c) (fun _ => false) {} .conf).2.2
+      let f := h.2.1.filter (fun v => v % 4 == 0) (fun c => 2 * c) (fun _ => false) h.2.2
+      f.2.1.map fun g => ((g.destroy (h.2.1.destroy f.2.2.2)).live, g.abs)) =
+    some (0, [0, 4, 8, 12, 16, 20]) := by
+  decide
 
 end CC.Properties.C06Stack
